@@ -910,8 +910,9 @@ def install(names=None):
             ta, da = view_abs(self._abs)
             tr, dr = view_rel(self._rel)
             ea, er = events(ta), events(tr)
-            rec("C04", "seq_inv", "views_events", ea == er, (_msdiff(ea, er)[:3], _msdiff(er, ea)[:3]))
-            rec("C04", "seq_inv", "views_duration", da == dr, (da, dr))
+            rec("C04", "seq_inv", "views_events", ea == er,
+                {"self_id": id(self), "abs_only": _msdiff(ea, er)[:3], "rel_only": _msdiff(er, ea)[:3]})
+            rec("C04", "seq_inv", "views_duration", da == dr, {"self_id": id(self), "dur": (da, dr)})
             return True
         icontract.invariant(seq_inv, error=MonitorBug)(Sequence)
 
